@@ -125,9 +125,11 @@ func (fileCrashExec) ModelLine(line string) string {
 	return fmt.Sprintf("fcrash %d %d", n, steps)
 }
 
+var fileCrashRunner = Runner{Mk: func(Cfg) Executor { return fileCrashExec{} }}
+
 func famFileCrash(f *FamCtx) {
 	f.Report.Rule = "the real file Store runs in a child process under RLIMIT_FSIZE = cut for EVERY cut in 0..len on small nodes (len 1..40 quick, ..300 thorough) and sampled cuts on larger ones, in two modes: the process is killed by SIGXFSZ at the cut (crash) or the write fails with EFBIG (I/O error); the parent then loads the name, stores it again and loads again; outcomes {absent, complete, partial} compared with the Lean step model of the store at the same cut and with C17's statement; non-trivial = cases with 0 < cut < len"
-	rn := Runner{Mk: func(Cfg) Executor { return fileCrashExec{} }}
+	rn := fileCrashRunner
 	cfg := Cfg{BF: 16, Fmt: "bin", KK: "u64", VKind: "u64", Cache: "none"}
 	maxLen := f.N(24, 300)
 	lens := []int{1, 2, 7}
